@@ -2231,6 +2231,8 @@ package go_clipper2
 //@   ensures [a-ring-never-becomes-its-own-owner] result ==> outrec.owner != outrec
 //@   ensures [no-owner-found-means-every-live-listed-split-was-visited] !result ==> forall(k, 0, len(splits), visitedFor(c.outrecList[splits[k]], outrec))
 //@   ensures [marks-are-kept] forallp(r, OutRec, old(r.recursiveSplit) == outrec ==> r.recursiveSplit == outrec)
+//@   ensures [the-owner-changes-only-when-one-is-found] !result ==> outrec.owner == old(outrec.owner)
+//@   loop 0 invariant [the-owner-changes-only-when-one-is-found] outrec.owner == old(outrec.owner)
 //@   ensures [records-stay-listed-and-dead-rings-stay-dead] len(c.outrecList) >= old(len(c.outrecList)) && forall(k, 0, old(len(c.outrecList)), c.outrecList[k] == old(c.outrecList[k])) && forallp(r, OutRec, fresh(r) || old(r.pts) != nil || r.pts == nil)
 //@   loop 0 invariant [visited-so-far] forall(k, 0, _i, visitedFor(c.outrecList[splits[k]], outrec))
 //@   loop 0 invariant [marks-kept] forallp(r, OutRec, old(r.recursiveSplit) == outrec ==> r.recursiveSplit == outrec)
